@@ -37,6 +37,9 @@ structure Cfg where
   attrOpt : Attr → Bool
   /-- `db_session(optimistic=...)` of the sessions of thread `s` -/
   sessOpt : Sid → Bool
+  /-- `db_session(immediate=True)` or `db_session(ddl=True)` for the sessions of thread `s`: the transaction (BEGIN IMMEDIATE)
+      starts with the first statement; it does NOT switch the optimistic checks off -/
+  sessImm : Sid → Bool := fun _ => false
   /-- the primary keys of the rows of the table, in the order a full scan returns them (no insert / delete in this model) -/
   objs : List Obj := []
 
@@ -130,9 +133,10 @@ structure Sess where
   /-- `cache.query_results`: criterion queries already answered in this session → the objects they returned -/
   qcache : List ((Attr × Val × Bool) × List Obj) := []
 
-/-- `SessionCache.__init__`: `cache.immediate = db_session.immediate` (= `not optimistic` here) -/
+/-- `SessionCache.__init__`: `cache.immediate = db_session.immediate`
+    (= `immediate or ddl or serializable or not optimistic`; `sessOpt` = `optimistic and not serializable`) -/
 def Sess.fresh (cfg : Cfg) (s : Sid) : Sess :=
-  ⟨false, fun _ => ObjSt.absent, [], fun _ => false, !cfg.sessOpt s, false, [], []⟩
+  ⟨false, fun _ => ObjSt.absent, [], fun _ => false, cfg.sessImm s || !cfg.sessOpt s, false, [], []⟩
 
 structure State where
   /-- committed rows -/
